@@ -432,7 +432,7 @@ def showRes : Res → String
   | .ok => "ok" | .msg m => s!"msg:{m}" | .eof => "eof" | .status c => s!"status:{c}"
   | .ctxErr .canceled => "ctxerr:canceled" | .ctxErr .deadline => "ctxerr:deadline"
   | .plainErr => "plain"
-  | .md h => if h.isEmpty then "md:-" else "md:" ++ ",".intercalate (h.map toString)
+  | .md h => if h.isEmpty then "md:-" else "md:" ++ "+".intercalate (h.map toString)
 
 def showEv : Ev → String
   | .ret .cs r => "cs:" ++ showRes r
